@@ -299,7 +299,12 @@ func (enc *jsonEncoder) AppendString(val string) {
 func (enc *jsonEncoder) AppendTimeLayout(time time.Time, layout string) {
 	enc.addElementSeparator()
 	enc.buf.AppendByte('"')
-	enc.buf.AppendTime(time, layout)
+	// The layout (and zone names) may contain characters that need escaping,
+	// so format into a scratch buffer and escape like any other string.
+	tmp := bufferpool.Get()
+	tmp.AppendTime(time, layout)
+	enc.safeAddByteString(tmp.Bytes())
+	tmp.Free()
 	enc.buf.AppendByte('"')
 }
 
